@@ -725,6 +725,23 @@ func planC05(prop string, seed uint64, tier string, idx int) *Plan {
 	}
 	g.add(Op{K: "retained"})
 	p := g.finish(prop, "retained-checked")
+	if !natural && idx%6 == 3 && k.Store == "dir" {
+		// collection passes that meet read errors (fault)
+		p.Profile += " + passes under read errors"
+		// (followed by a restart: what the pass has removed is what a fresh server on the directory no longer has; what a
+		// server that met read errors shows in the meantime is another matter)
+		rate := g.r.pick(300, 1000, 3000)
+		var ops []Op
+		for _, op := range p.Clients[0] {
+			if op.K == "gc" && g.r.chance(70) {
+				op.S, op.A = "faulty", rate
+				ops = append(ops, op, Op{K: "restart"})
+				continue
+			}
+			ops = append(ops, op)
+		}
+		p.Clients[0] = ops
+	}
 	if natural && idx%6 == 4 {
 		// stalled handlers and collection passes (fault): a goroutine stops for seconds at some scheduling point, holding
 		// whatever it holds, while the ticker goes on
